@@ -1,6 +1,7 @@
 import SJ.Proofs.TypedAgreeEnum
 import SJ.Proofs.TypedAgreeKeyInt
 import SJ.Proofs.TypedAgreeAny
+import SJ.Proofs.TypedFloatAgree
 /-!
 # The text leg of C16, assembled: every schema of the fragment `agreeFrag2`, every float-free non-`arbitrary_precision`
 # value outside the statement's exclusions
@@ -21,7 +22,7 @@ def keyFrag : KeyKind → Bool := fun _ => true
 mutual
 /-- the schema fragments of the text leg, parametrised by whether `Value` targets are admitted (`a = true`: the fragment
     of `c16_text_agrees_partial`; `a = false`: the fragment of `c04_typed_partial`). The statement's exclusion "no
-    zero-length tuple variant" is part of it (`fragPShape`); `f64` / `f32` targets are outside. -/
+    zero-length tuple variant" is part of it (`fragPShape`); `f32` targets are outside (so are they of C16's claim). -/
 def fragP (a : Bool) : Schema → Bool
   | .bool | .int _ | .unit | .unitStruct | .char | .string | .bytes | .ignored => true
   | .option s | .newtype s | .seq s => fragP a s
@@ -30,7 +31,8 @@ def fragP (a : Bool) : Schema → Bool
   | .struct_ fs _ => fragPFields a fs
   | .enum_ vs => fragPVariants a vs
   | .any => a
-  | .f64 | .f32 => false
+  | .f64 => true
+  | .f32 => false
 def fragPList (a : Bool) : List Schema → Bool
   | [] => true
   | s :: r => fragP a s && fragPList a r
@@ -132,6 +134,87 @@ theorem hap_obj (names : List Bytes) (kvs : List (Bytes × JV)) (h : JV.hasArray
   simp only [JV.hasArrayPayload, Bool.or_eq_false_iff] at h
   exact h.2
 
+/-! ## 128-bit integer targets (a float under one of them is outside the per-target invariant) -/
+
+mutual
+/-- the schema has a 128-bit integer target (map keys do not count: a key is a string) -/
+def has128 : Schema → Bool
+  | .int w => is128 w
+  | .option s | .newtype s | .seq s | .map _ s => has128 s
+  | .tuple ss => has128List ss
+  | .struct_ fs _ => has128Fields fs
+  | .enum_ vs => has128Variants vs
+  | _ => false
+def has128List : List Schema → Bool
+  | [] => false
+  | s :: r => has128 s || has128List r
+def has128Fields : List (Bytes × Schema) → Bool
+  | [] => false
+  | (_, s) :: r => has128 s || has128Fields r
+def has128Variants : List (Bytes × VariantShape) → Bool
+  | [] => false
+  | (_, sh) :: r => has128Shape sh || has128Variants r
+def has128Shape : VariantShape → Bool
+  | .unit => false
+  | .newtype s => has128 s
+  | .tuple ss => has128List ss
+  | .struct_ fs => has128Fields fs
+end
+
+theorem has128_mem : ∀ (ss : List Schema) (s : Schema), s ∈ ss → has128List ss = false → has128 s = false
+  | [], _, h, _ => by simp at h
+  | x :: r, s, h, hf => by
+    simp only [has128List, Bool.or_eq_false_iff] at hf
+    rcases List.mem_cons.mp h with rfl | h
+    · exact hf.1
+    · exact has128_mem r s h hf.2
+
+theorem has128_mem_fields : ∀ (fs : List (Bytes × Schema)) (s : Schema), s ∈ fs.map (·.2) → has128Fields fs = false →
+    has128 s = false
+  | [], _, h, _ => by simp at h
+  | (n, x) :: r, s, h, hf => by
+    simp only [has128Fields, Bool.or_eq_false_iff] at hf
+    simp only [List.map_cons, List.mem_cons] at h
+    rcases h with rfl | h
+    · exact hf.1
+    · exact has128_mem_fields r s h hf.2
+
+theorem has128_mem_variants : ∀ (vs : List (Bytes × VariantShape)) (nm : Bytes) (sh : VariantShape), (nm, sh) ∈ vs →
+    has128Variants vs = false → has128Shape sh = false
+  | [], _, _, h, _ => by simp at h
+  | (n, x) :: r, nm, sh, h, hf => by
+    simp only [has128Variants, Bool.or_eq_false_iff] at hf
+    rcases List.mem_cons.mp h with h | h
+    · cases h; exact hf.1
+    · exact has128_mem_variants r nm sh h hf.2
+
+theorem noFloat_member : ∀ (kvs : List (Bytes × JV)) (kv : Bytes × JV), kv ∈ kvs → Spec.WF.noFloatm kvs = true →
+    Spec.WF.noFloat kv.2 = true
+  | [], _, h, _ => by simp at h
+  | (k, y) :: r, kv, h, hf => by
+    simp only [Spec.WF.noFloatm, Bool.and_eq_true] at hf
+    rcases List.mem_cons.mp h with rfl | h
+    · exact hf.1
+    · exact noFloat_member r kv h hf.2
+
+theorem frt_elem (c : Spec.Canon.Cfg) (e : Spec.Program.Ext) : ∀ (xs : List JV) (x : JV), x ∈ xs →
+    Spec.WF.floatsRTs c e xs = true → Spec.WF.floatsRT c e x = true
+  | [], _, h, _ => by simp at h
+  | y :: r, x, h, hf => by
+    simp only [Spec.WF.floatsRTs, Bool.and_eq_true] at hf
+    rcases List.mem_cons.mp h with rfl | h
+    · exact hf.1
+    · exact frt_elem c e r x h hf.2
+
+theorem frt_member (c : Spec.Canon.Cfg) (e : Spec.Program.Ext) : ∀ (kvs : List (Bytes × JV)) (kv : Bytes × JV), kv ∈ kvs →
+    Spec.WF.floatsRTm c e kvs = true → Spec.WF.floatsRT c e kv.2 = true
+  | [], _, h, _ => by simp at h
+  | (k, y) :: r, kv, h, hf => by
+    simp only [Spec.WF.floatsRTm, Bool.and_eq_true] at hf
+    rcases List.mem_cons.mp h with rfl | h
+    · exact hf.1
+    · exact frt_member c e r kv h hf.2
+
 /-! ## the admissible (schema, value) pairs: an invariant closed under the positions both deserializers visit -/
 
 /-- positionwise (the i-th schema with the i-th element) -/
@@ -207,23 +290,34 @@ theorem keyAgree_frag {env : Env} (hflt : env.flt = false) (k : KeyKind) (hk : k
   | int w => exact keyAgree_int ext hext hflt w
 
 /-- **the text leg on printed values**, for an invariant `R` on (schema, value) pairs closed under the positions visited:
-    for every schema of the fragment and every float-free value representable without `arbitrary_precision`, within the
-    depth budget and admissible, the typed deserializer on the text `to_string` writes for the value (followed by a
-    separator or nothing) returns exactly what `from_value` returns — and fails when it fails -/
-theorem agree_gen {env : Env} (hflt : env.flt = false) (cfg' : FromValue.Cfg) (hap : cfg'.ap = false) (ext' : FromValue.Ext)
-    (R : Schema → JV → Prop) (hR : Closed R)
-    (hAny : a = true → ∀ v, R .any v → Spec.WF.shapeOK (SJ.Proofs.CanonM.specCfg env.cfg) v = true) :
+    for every schema of the fragment and every value representable without `arbitrary_precision` whose floats are read back
+    from `ryu`'s text (`floatsRT`), within the depth budget and admissible, the typed deserializer on the text `to_string`
+    writes for the value (followed by a separator or nothing) returns exactly what `from_value` returns — and fails when it
+    fails. `hInt`: no float under a 128-bit integer target (`agree_int`); `hF64`: an integer under an `f64` target is one a
+    `Number` can hold. -/
+theorem agree_gen {env : Env} (hflt : env.flt = false) (hapE : env.cfg.ap = false) (cfg' : FromValue.Cfg) (hap : cfg'.ap = false)
+    (ext' : FromValue.Ext) (R : Schema → JV → Prop) (hR : Closed R)
+    (hAny : a = true → ∀ v, R .any v → Spec.WF.shapeOK (SJ.Proofs.CanonM.specCfg env.cfg) v = true)
+    (hInt : ∀ w v, R (.int w) v → is128 w = true → ∀ b, v ≠ .num (.float b))
+    (hF64 : ∀ v, R .f64 v → SJ.Proofs.TypedFloat.IntRangeOK v) :
     ∀ (f : Nat) (s : Schema), Schema.size s ≤ f → fragP a s = true →
-      ∀ (t : Nat) (v : JV), VOK v → DepthOK env t v → R s v →
+      ∀ (t : Nat) (v : JV), VOK v → Spec.WF.floatsRT (SJ.Proofs.CanonM.specCfg env.cfg) ext v = true → DepthOK env t v → R s v →
       Agree1 (deTyped env f t s) (FromValue.fromValue cfg' ext' s v) (T ext v) := by
   intro f
   induction f with
   | zero => intro s hs; have := size_pos s; omega
   | succ f ih =>
-    intro s hs hfr t v hv hd hr
+    intro s hs hfr t v hv hF hd hr
     cases s with
     | bool => rw [deTyped_bool]; exact agree_bool ext hext hflt cfg' hap ext' v hv
-    | int w => rw [deTyped_int]; exact agree_int ext hext hflt cfg' hap ext' w v hv
+    | int w =>
+      rw [deTyped_int]
+      refine agree_int ext hext hflt cfg' hap ext' w v hv fun b hb rest pos hs => ?_
+      subst hb
+      by_cases h128 : is128 w = true
+      · exact absurd rfl (hInt w _ hr h128 b)
+      · exact SJ.Proofs.TypedFloat.int_float_refused hflt hapE ext hext w h128 b (by simpa [VOK, shapeW, wfNumW] using hv)
+          (by simpa [Spec.WF.floatsRT] using hF) rest pos hs
     | unit => rw [deTyped_unit]; exact agree_unit ext hext hflt cfg' hap ext' v hv
     | unitStruct =>
       rw [deTyped_unitStruct]
@@ -231,25 +325,31 @@ theorem agree_gen {env : Env} (hflt : env.flt = false) (cfg' : FromValue.Cfg) (h
       simpa [FromValue.fromValue] using this
     | char => rw [deTyped_char]; exact agree_char ext hext hflt cfg' hap ext' v hv
     | string => rw [deTyped_string]; exact agree_string ext hext hflt cfg' hap ext' v hv
-    | bytes => rw [deTyped_bytes]; exact agree_bytes ext hext hflt cfg' hap ext' t v hv hd
+    | bytes =>
+      rw [deTyped_bytes]
+      refine agree_bytes ext hext hflt cfg' hap ext' t v hv hd fun xs hxs x hx b hb rest pos hs => ?_
+      subst hxs; subst hb
+      exact SJ.Proofs.TypedFloat.int_float_refused hflt hapE ext hext .u8 (by decide) b
+        (by simpa [VOK, shapeW, wfNumW] using vok_elem xs _ hx hv)
+        (by simpa [Spec.WF.floatsRT] using frt_elem _ _ xs _ hx (by simpa [Spec.WF.floatsRT] using hF)) rest pos hs
     | ignored =>
       rw [deTyped_ignored]
       intro rest pos hsep
       simp only [FromValue.fromValue]
-      rw [ignoreValue_T ext hext env hflt v hv.1 rest pos hsep]
+      rw [ignoreValue_T ext hext env hflt v hv rest pos hsep]
       rfl
     | newtype s' =>
       rw [deTyped_newtype]
-      have := ih s' (by simp only [Schema.size] at hs; omega) (by simpa [fragP] using hfr) t v hv hd (hR.newtype s' v hr)
+      have := ih s' (by simp only [Schema.size] at hs; omega) (by simpa [fragP] using hfr) t v hv hF hd (hR.newtype s' v hr)
       simpa [FromValue.fromValue] using this
     | option s' =>
       exact agree_option ext hflt cfg' hap ext' s' f t v hv
-        (fun hnn => ih s' (by simp only [Schema.size] at hs; omega) (by simpa [fragP] using hfr) t v hv hd (hR.option s' v hr hnn))
+        (fun hnn => ih s' (by simp only [Schema.size] at hs; omega) (by simpa [fragP] using hfr) t v hv hF hd (hR.option s' v hr hnn))
         (T_head ext hext v hv)
     | seq s' =>
       refine agree_seq ext hext hflt cfg' hap ext' s' f t v hv hd fun xs hxs x hx => ?_
       subst hxs
-      exact ih s' (by simp only [Schema.size] at hs; omega) (by simpa [fragP] using hfr) (t + 1) x (vok_elem xs x hx hv)
+      exact ih s' (by simp only [Schema.size] at hs; omega) (by simpa [fragP] using hfr) (t + 1) x (vok_elem xs x hx hv) (frt_elem _ _ xs x hx (by simpa [Spec.WF.floatsRT] using hF))
         (depthOK_elem t xs x hx hd) (hR.seq s' xs hr x hx)
     | tuple ss =>
       refine agree_tuple ext hext hflt cfg' hap ext' ss f t v hv hd fun xs hxs => ?_
@@ -257,13 +357,13 @@ theorem agree_gen {env : Env} (hflt : env.flt = false) (cfg' : FromValue.Cfg) (h
       refine tupAgree_of_tupR ext R _ _ ss xs (fun s' hs' x hx hrx => ?_) (hR.tuple ss xs hr)
       have hsz := size_mem_list ss s' hs'
       exact ih s' (by simp only [Schema.size] at hs; omega) (agreeFrag2_mem ss s' hs' (by simpa [fragP] using hfr)) (t + 1) x
-        (vok_elem xs x hx hv) (depthOK_elem t xs x hx hd) hrx
+        (vok_elem xs x hx hv) (frt_elem _ _ xs x hx (by simpa [Spec.WF.floatsRT] using hF)) (depthOK_elem t xs x hx hd) hrx
     | map k s' =>
       have hfr' : keyFrag k = true ∧ fragP a s' = true := by simpa [fragP] using hfr
       refine agree_map ext hext hflt cfg' hap ext' k (keyAgree_frag ext hext hflt k hfr'.1) s' f t v hv hd fun kvs hkvs kv hx => ?_
       subst hkvs
       exact ih s' (by simp only [Schema.size] at hs; omega) hfr'.2 (t + 1) kv.2
-        (vok_member kvs kv hx hv).2 (depthOK_member t kvs kv hx hd) (hR.map k s' kvs hr kv hx)
+        (vok_member kvs kv hx hv).2 (frt_member _ _ kvs kv hx (by simpa [Spec.WF.floatsRT] using hF)) (depthOK_member t kvs kv hx hd) (hR.map k s' kvs hr kv hx)
     | struct_ fs deny =>
       have hfr' : fragPFields a fs = true := by simpa [fragP] using hfr
       have hsize : ∀ s' ∈ fs.map (·.2), Schema.size s' ≤ f := by
@@ -275,12 +375,12 @@ theorem agree_gen {env : Env} (hflt : env.flt = false) (cfg' : FromValue.Cfg) (h
       · intro xs hxs
         subst hxs
         refine tupAgree_of_tupR ext R _ _ _ xs (fun s' hs' x hx hrx => ?_) (hR.structArr fs deny xs hr)
-        exact ih s' (hsize s' hs') (agreeFrag2_mem_fields fs s' hs' hfr') (t + 1) x (vok_elem xs x hx hv)
+        exact ih s' (hsize s' hs') (agreeFrag2_mem_fields fs s' hs' hfr') (t + 1) x (vok_elem xs x hx hv) (frt_elem _ _ xs x hx (by simpa [Spec.WF.floatsRT] using hF))
           (depthOK_elem t xs x hx hd) hrx
       · intro kvs hkvs kv hx i nm s' hni hfi
         subst hkvs
         have hs' : s' ∈ fs.map (·.2) := List.mem_map.mpr ⟨(nm, s'), List.mem_of_getElem? hfi, rfl⟩
-        exact ih s' (hsize s' hs') (agreeFrag2_mem_fields fs s' hs' hfr') (t + 1) kv.2 (vok_member kvs kv hx hv).2
+        exact ih s' (hsize s' hs') (agreeFrag2_mem_fields fs s' hs' hfr') (t + 1) kv.2 (vok_member kvs kv hx hv).2 (frt_member _ _ kvs kv hx (by simpa [Spec.WF.floatsRT] using hF))
           (depthOK_member t kvs kv hx hd) (hR.structObj fs deny kvs hr kv hx i nm s' hni hfi)
     | enum_ vs =>
       have hfr' : fragPVariants a vs = true := by simpa [fragP] using hfr
@@ -292,7 +392,8 @@ theorem agree_gen {env : Env} (hflt : env.flt = false) (cfg' : FromValue.Cfg) (h
         have hrsh := hR.enumPayload vs k x kvs hr sh hmem
         have hvk := (vok_member ((k, x) :: kvs) (k, x) (by simp) hv).2
         have hdk := depthOK_member t ((k, x) :: kvs) (k, x) (by simp) hd
-        simp only at hvk hdk
+        have hfk := frt_member _ _ ((k, x) :: kvs) (k, x) (by simp) (by simpa [Spec.WF.floatsRT] using hF)
+        simp only at hvk hdk hfk
         have hszs : ∀ s' ∈ shapeSchemas sh, Schema.size s' ≤ f := by
           intro s' hs'
           have := size_shape sh s' hs'
@@ -305,7 +406,7 @@ theorem agree_gen {env : Env} (hflt : env.flt = false) (cfg' : FromValue.Cfg) (h
           exact agree_unit ext hext hflt cfg' hap ext' x hvk
         | newtype s' =>
           simp only [dePayload, payloadFV]
-          exact ih s' (hszs s' (by simp [shapeSchemas])) (by simpa [fragPShape] using hshf) (t + 1) x hvk hdk hrsh
+          exact ih s' (hszs s' (by simp [shapeSchemas])) (by simpa [fragPShape] using hshf) (t + 1) x hvk hfk hdk hrsh
         | tuple ss =>
           have hfl : fragPList a ss = true := by
             have : (!ss.isEmpty && fragPList a ss) = true := by simpa [fragPShape] using hshf
@@ -318,7 +419,7 @@ theorem agree_gen {env : Env} (hflt : env.flt = false) (cfg' : FromValue.Cfg) (h
           subst hxs
           refine tupAgree_of_tupR ext R _ _ ss xs (fun s' hs' x' hx' hrx => ?_) (hR.tuple ss xs hrsh)
           exact ih s' (hszs s' (by simpa [shapeSchemas] using hs')) (agreeFrag2_mem ss s' hs' hfl) (t + 1 + 1) x'
-            (vok_elem xs x' hx' hvk) (depthOK_elem (t + 1) xs x' hx' hdk) hrx
+            (vok_elem xs x' hx' hvk) (frt_elem _ _ xs x' hx' (by simpa [Spec.WF.floatsRT] using hfk)) (depthOK_elem (t + 1) xs x' hx' hdk) hrx
         | struct_ fs =>
           have hff : fragPFields a fs = true := by simpa [fragPShape] using hshf
           have : dePayload env (t + 1) (deTyped env f) (.struct_ fs) = deTyped env (f + 1) (t + 1) (.struct_ fs false) := by
@@ -330,12 +431,12 @@ theorem agree_gen {env : Env} (hflt : env.flt = false) (cfg' : FromValue.Cfg) (h
             subst hxs
             refine tupAgree_of_tupR ext R _ _ _ xs (fun s' hs' x' hx' hrx => ?_) (hR.structArr fs false xs hrsh)
             exact ih s' (hszs s' (by simpa [shapeSchemas] using hs')) (agreeFrag2_mem_fields fs s' hs' hff) (t + 1 + 1) x'
-              (vok_elem xs x' hx' hvk) (depthOK_elem (t + 1) xs x' hx' hdk) hrx
+              (vok_elem xs x' hx' hvk) (frt_elem _ _ xs x' hx' (by simpa [Spec.WF.floatsRT] using hfk)) (depthOK_elem (t + 1) xs x' hx' hdk) hrx
           · intro kvs' hkvs' kv' hx' i nm s' hni hfi
             subst hkvs'
             have hs' : s' ∈ fs.map (·.2) := List.mem_map.mpr ⟨(nm, s'), List.mem_of_getElem? hfi, rfl⟩
             exact ih s' (hszs s' (by simpa [shapeSchemas] using hs')) (agreeFrag2_mem_fields fs s' hs' hff) (t + 1 + 1) kv'.2
-              (vok_member kvs' kv' hx' hvk).2 (depthOK_member (t + 1) kvs' kv' hx' hdk)
+              (vok_member kvs' kv' hx' hvk).2 (frt_member _ _ kvs' kv' hx' (by simpa [Spec.WF.floatsRT] using hfk)) (depthOK_member (t + 1) kvs' kv' hx' hdk)
               (hR.structObj fs false kvs' hrsh kv' hx' i nm s' hni hfi)
       · intro k x hkx sh hmem
         subst hkx
@@ -343,8 +444,11 @@ theorem agree_gen {env : Env} (hflt : env.flt = false) (cfg' : FromValue.Cfg) (h
           (fun fs hfs xs => hR.enumExcl vs k x hr fs (hfs ▸ hmem) xs)
     | any =>
       have ha : a = true := by simpa [fragP] using hfr
-      exact agree_any ext hext hflt cfg' hap ext' f t v hv hd (hAny ha v hr)
-    | f64 | f32 => simp [fragP] at hfr
+      exact agree_any ext hext hflt cfg' hap ext' f t v hv hd (hAny ha v hr) hF
+    | f64 =>
+      rw [deTyped_f64]
+      exact SJ.Proofs.TypedFloat.agree_f64 hflt hapE cfg' hap ext' ext hext v hv hF (hF64 v hr)
+    | f32 => simp [fragP] at hfr
 
 /-! ## the instance of C16: no struct variant written as an array (`JV.hasArrayPayload` over the schema's struct-variant names) -/
 
@@ -374,50 +478,65 @@ theorem shapeOK_member (c : Spec.Canon.Cfg) : ∀ (kvs : List (Bytes × JV)) (kv
     · exact shapeOK_member c r kv h hf.2
 
 /-- C16's admissibility: the struct-variant names of the schema are among `names`, the value has no single-key object
-    `{name: [...]}` for one of them, and it is a value the build can hold (`shapeOK`: a `Value` target needs the keys in
-    the map's order) -/
+    `{name: [...]}` for one of them, it is a value the build can hold (`shapeOK`: a `Value` target needs the keys in
+    the map's order), and no float meets a 128-bit integer target (stated coarsely: the schema has no 128-bit integer
+    target, or the value has no float) -/
 def RC16 (names : List Bytes) (c : Spec.Canon.Cfg) (s : Schema) (v : JV) : Prop :=
-  (∀ n ∈ s.structVariantNames, n ∈ names) ∧ JV.hasArrayPayload names v = false ∧ Spec.WF.shapeOK c v = true
+  (∀ n ∈ s.structVariantNames, n ∈ names) ∧ JV.hasArrayPayload names v = false ∧ Spec.WF.shapeOK c v = true ∧
+    (has128 s = false ∨ Spec.WF.noFloat v = true)
 
 omit hext in
 theorem closed_RC16 (names : List Bytes) (c : Spec.Canon.Cfg) : Closed (RC16 names c) where
-  option := fun s v h _ => ⟨by simpa [Schema.structVariantNames] using h.1, h.2⟩
-  newtype := fun s v h => ⟨by simpa [Schema.structVariantNames] using h.1, h.2⟩
+  option := fun s v h _ => ⟨by simpa [Schema.structVariantNames] using h.1, h.2.1, h.2.2.1, by simpa [has128] using h.2.2.2⟩
+  newtype := fun s v h => ⟨by simpa [Schema.structVariantNames] using h.1, h.2.1, h.2.2.1, by simpa [has128] using h.2.2.2⟩
   seq := fun s xs h x hx => ⟨by simpa [Schema.structVariantNames] using h.1,
     hap_elem names xs x hx (by simpa [JV.hasArrayPayload] using h.2.1),
-    shapeOK_elem c xs x hx (by simpa [Spec.WF.shapeOK] using h.2.2)⟩
+    shapeOK_elem c xs x hx (by simpa [Spec.WF.shapeOK] using h.2.2.1),
+    h.2.2.2.imp (by simp [has128]) (fun hn => noFloat_elem xs x hx (by simpa [Spec.WF.noFloat] using hn))⟩
   tuple := fun ss xs h => tupR_of_all _ ss xs fun s hs x hx =>
     ⟨fun n hn => h.1 n (by simp only [Schema.structVariantNames]; exact svn_mem_list ss s hs n hn),
      hap_elem names xs x hx (by simpa [JV.hasArrayPayload] using h.2.1),
-     shapeOK_elem c xs x hx (by simpa [Spec.WF.shapeOK] using h.2.2)⟩
+     shapeOK_elem c xs x hx (by simpa [Spec.WF.shapeOK] using h.2.2.1),
+     h.2.2.2.imp (fun h8 => has128_mem ss s hs (by simpa [has128] using h8))
+       (fun hn => noFloat_elem xs x hx (by simpa [Spec.WF.noFloat] using hn))⟩
   map := fun k s kvs h kv hx => ⟨by simpa [Schema.structVariantNames] using h.1,
     hap_member names kvs kv hx (hap_obj names kvs h.2.1),
-    shapeOK_member c kvs kv hx (by have := h.2.2; simp only [Spec.WF.shapeOK, Bool.and_eq_true] at this; exact this.2)⟩
+    shapeOK_member c kvs kv hx (by have := h.2.2.1; simp only [Spec.WF.shapeOK, Bool.and_eq_true] at this; exact this.2),
+    h.2.2.2.imp (by simp [has128]) (fun hn => noFloat_member kvs kv hx (by simpa [Spec.WF.noFloat] using hn))⟩
   structArr := fun fs d xs h => tupR_of_all _ _ xs fun s hs x hx =>
     ⟨fun n hn => h.1 n (by simp only [Schema.structVariantNames]; exact svn_mem_fields fs s hs n hn),
      hap_elem names xs x hx (by simpa [JV.hasArrayPayload] using h.2.1),
-     shapeOK_elem c xs x hx (by simpa [Spec.WF.shapeOK] using h.2.2)⟩
+     shapeOK_elem c xs x hx (by simpa [Spec.WF.shapeOK] using h.2.2.1),
+     h.2.2.2.imp (fun h8 => has128_mem_fields fs s hs (by simpa [has128] using h8))
+       (fun hn => noFloat_elem xs x hx (by simpa [Spec.WF.noFloat] using hn))⟩
   structObj := fun fs d kvs h kv hx i nm s _ hfi =>
     ⟨fun n hn => h.1 n (by
         simp only [Schema.structVariantNames]
         exact svn_mem_fields fs s (List.mem_map.mpr ⟨(nm, s), List.mem_of_getElem? hfi, rfl⟩) n hn),
      hap_member names kvs kv hx (hap_obj names kvs h.2.1),
-     shapeOK_member c kvs kv hx (by have := h.2.2; simp only [Spec.WF.shapeOK, Bool.and_eq_true] at this; exact this.2)⟩
+     shapeOK_member c kvs kv hx (by have := h.2.2.1; simp only [Spec.WF.shapeOK, Bool.and_eq_true] at this; exact this.2),
+     h.2.2.2.imp (fun h8 => has128_mem_fields fs s (List.mem_map.mpr ⟨(nm, s), List.mem_of_getElem? hfi, rfl⟩)
+         (by simpa [has128] using h8))
+       (fun hn => noFloat_member kvs kv hx (by simpa [Spec.WF.noFloat] using hn))⟩
   enumPayload := fun vs k x kvs h sh hmem => by
     have hsub : ∀ n ∈ VariantShape.svn k sh, n ∈ names :=
       fun n hn => h.1 n (by simp only [Schema.structVariantNames]; exact svn_mem_variants vs k sh hmem n hn)
     have hx : JV.hasArrayPayload names x = false := hap_member names ((k, x) :: kvs) (k, x) (by simp) (hap_obj names _ h.2.1)
     have hsx : Spec.WF.shapeOK c x = true :=
       shapeOK_member c ((k, x) :: kvs) (k, x) (by simp) (by
-        have := h.2.2; simp only [Spec.WF.shapeOK, Bool.and_eq_true] at this; exact this.2)
+        have := h.2.2.1; simp only [Spec.WF.shapeOK, Bool.and_eq_true] at this; exact this.2)
+    have h8 : has128Shape sh = false ∨ Spec.WF.noFloat x = true :=
+      h.2.2.2.imp (fun h8 => has128_mem_variants vs k sh hmem (by simpa [has128] using h8))
+        (fun hn => noFloat_member ((k, x) :: kvs) (k, x) (by simp) (by simpa [Spec.WF.noFloat] using hn))
     cases sh with
     | unit => trivial
-    | newtype s => exact ⟨by simpa [VariantShape.svn] using hsub, hx, hsx⟩
-    | tuple ss => exact ⟨by simpa [VariantShape.svn, Schema.structVariantNames] using hsub, hx, hsx⟩
+    | newtype s => exact ⟨by simpa [VariantShape.svn] using hsub, hx, hsx, by simpa [has128Shape] using h8⟩
+    | tuple ss => exact ⟨by simpa [VariantShape.svn, Schema.structVariantNames] using hsub, hx, hsx,
+        by simpa [has128Shape, has128] using h8⟩
     | struct_ fs =>
       exact ⟨fun n hn => hsub n (by
         simp only [Schema.structVariantNames] at hn
-        simp only [VariantShape.svn, List.mem_cons]; exact .inr hn), hx, hsx⟩
+        simp only [VariantShape.svn, List.mem_cons]; exact .inr hn), hx, hsx, by simpa [has128Shape, has128] using h8⟩
   enumExcl := fun vs k x h fs hmem xs hx => by
     subst hx
     have hk : k ∈ names := h.1 k (by
@@ -429,15 +548,32 @@ theorem closed_RC16 (names : List Bytes) (c : Spec.Canon.Cfg) : Closed (RC16 nam
     simp at this
     exact this hk
 
+omit hext in
+/-- a value the build can hold has integers a `Number` can hold -/
+theorem intRangeOK_of_shapeOK (c : Spec.Canon.Cfg) (v : JV) (h : Spec.WF.shapeOK c v = true) : SJ.Proofs.TypedFloat.IntRangeOK v := by
+  constructor
+  · intro n hn; subst hn
+    simp only [Spec.WF.shapeOK, Spec.WF.wfNum, Bool.and_eq_true, decide_eq_true_eq] at h
+    exact h.2
+  · intro i hi; subst hi
+    simp only [Spec.WF.shapeOK, Spec.WF.wfNum, Bool.and_eq_true, decide_eq_true_eq] at h
+    exact h.1.2
+
 /-- the text leg for C16's hypotheses -/
-theorem agree_all {env : Env} (hflt : env.flt = false) (cfg' : FromValue.Cfg) (hap : cfg'.ap = false) (ext' : FromValue.Ext)
-    (names : List Bytes) :
+theorem agree_all {env : Env} (hflt : env.flt = false) (hapE : env.cfg.ap = false) (cfg' : FromValue.Cfg) (hap : cfg'.ap = false)
+    (ext' : FromValue.Ext) (names : List Bytes) :
     ∀ (f : Nat) (s : Schema), Schema.size s ≤ f → fragP a s = true → (∀ n ∈ s.structVariantNames, n ∈ names) →
-      ∀ (t : Nat) (v : JV), VOK v → DepthOK env t v → JV.hasArrayPayload names v = false →
-      Spec.WF.shapeOK (SJ.Proofs.CanonM.specCfg env.cfg) v = true →
+      ∀ (t : Nat) (v : JV), VOK v → Spec.WF.floatsRT (SJ.Proofs.CanonM.specCfg env.cfg) ext v = true → DepthOK env t v →
+      JV.hasArrayPayload names v = false →
+      Spec.WF.shapeOK (SJ.Proofs.CanonM.specCfg env.cfg) v = true → (has128 s = false ∨ Spec.WF.noFloat v = true) →
       Agree1 (deTyped env f t s) (FromValue.fromValue cfg' ext' s v) (T ext v) :=
-  fun f s hs hfr hsub t v hv hd hnap hsh =>
-    agree_gen ext hext hflt cfg' hap ext' (RC16 names _) (closed_RC16 names _) (fun _ v h => h.2.2) f s hs hfr t v hv hd
-      ⟨hsub, hnap, hsh⟩
+  fun f s hs hfr hsub t v hv hF hd hnap hsh h8 =>
+    agree_gen ext hext hflt hapE cfg' hap ext' (RC16 names _) (closed_RC16 names _) (fun _ v h => h.2.2.1)
+      (fun w v h h128 b hb => by
+        subst hb
+        rcases h.2.2.2 with h8 | hn
+        · simp only [has128] at h8; rw [h128] at h8; cases h8
+        · simp [Spec.WF.noFloat] at hn)
+      (fun v h => intRangeOK_of_shapeOK _ v h.2.2.1) f s hs hfr t v hv hF hd ⟨hsub, hnap, hsh, h8⟩
 
 end SJ.Proofs.Typed
